@@ -218,4 +218,231 @@ def splitSched : List Nat := [0, 1, 0]
 /-- the same race against PostBind: pod 0 is waiting-for-bind ... no: it is released and being bound -/
 def splitProgsBind : List (List Call) := [[.podEvt 0 false], [.postBind 0]]
 
+/-! ### coverage: every member is in some set at every barrier -/
+
+/-- shape of a goroutine's remaining sections on the unchanged tree: `setChild` of a pod that carries a
+    node name is immediately followed by `addBoundPod` of the same pod (onPodAddInternal) -/
+def WFtodo : List Sec → Prop
+  | [] => True
+  | s :: rest => (∀ q, s = .setChild q true → ∃ r, rest = .addBound q :: r) ∧ WFtodo rest
+
+theorem wf_append_secs (c : Call) (rest : List Sec) (h : WFtodo rest) : WFtodo (c.secs 1 ++ rest) := by
+  cases c with
+  | podEvt p n =>
+    cases n with
+    | false =>
+      simp only [Call.secs, setChildSecs, if_true, Bool.false_eq_true, if_false, List.append_nil, List.singleton_append]
+      exact ⟨fun q e => (by cases e), h⟩
+    | true =>
+      simp only [Call.secs, setChildSecs, if_true, List.cons_append, List.nil_append]
+      refine ⟨fun q e => ?_, fun q e => (by cases e), h⟩
+      cases e
+      exact ⟨rest, rfl⟩
+  | podDel p => exact ⟨fun q e => (by cases e), h⟩
+  | permit p => exact ⟨fun q e => (by cases e), h⟩
+  | unreserve p => exact ⟨fun q e => (by cases e), h⟩
+  | postBind p => exact ⟨fun q e => (by cases e), h⟩
+
+theorem compile_one_wf (cs : List Call) : WFtodo (compile 1 cs) := by
+  induction cs with
+  | nil => trivial
+  | cons c t ih =>
+    unfold compile at ih ⊢
+    rw [List.flatMap_cons]
+    exact wf_append_secs c _ ih
+
+/-- some goroutine is about to run addBoundPod for q -/
+def Conf.owed (c : Conf) (q : Pod) : Prop := ∃ t ∈ c.ts, ∃ r, t.todo = .addBound q :: r
+
+/-- every member is in one of the three sets — or an informer goroutine is between `setChild` and
+    `addBoundPod` for it -/
+def Conf.CovX (c : Conf) : Prop :=
+  ∀ q ∈ c.g.children, q ∈ c.g.pending ∨ q ∈ c.g.waiting ∨ q ∈ c.g.bound ∨ c.owed q
+
+def Conf.allWF (c : Conf) : Prop := ∀ t ∈ c.ts, WFtodo t.todo
+
+theorem mem_set_of_ne {ts : List Thread} {i : Nat} {t t' told : Thread} (hget : ts[i]? = some told)
+    (ht : t ∈ ts) (hne : t ≠ told) : t ∈ ts.set i t' := by
+  obtain ⟨j, hj, rfl⟩ := List.mem_iff_getElem.mp ht
+  have hji : i ≠ j := by
+    intro e
+    subst e
+    rw [List.getElem?_eq_getElem hj] at hget
+    exact hne (Option.some.inj hget)
+  apply List.mem_iff_getElem.mpr
+  refine ⟨j, by simpa using hj, ?_⟩
+  rw [List.getElem_set_ne hji]
+
+theorem step_covX (c : Conf) (i : Nat) (hw : c.allWhole) (hf : c.allWF) (hc : c.CovX) :
+    (c.step i).allWF ∧ (c.step i).CovX := by
+  unfold Conf.step
+  cases hget : c.ts[i]? with
+  | none => exact ⟨hf, hc⟩
+  | some t =>
+    obtain ⟨todo, l⟩ := t
+    cases todo with
+    | nil => exact ⟨hf, hc⟩
+    | cons s rest =>
+      have hmem : (⟨s :: rest, l⟩ : Thread) ∈ c.ts := List.mem_of_getElem? hget
+      have hwf := hf _ hmem
+      have hwhole := hw _ hmem s List.mem_cons_self
+      have hi : i < c.ts.length := by
+        rcases List.getElem?_eq_some_iff.mp hget with ⟨h, _⟩
+        exact h
+      simp only
+      have hnew : (⟨rest, (s.exec c.g l).2⟩ : Thread) ∈ c.ts.set i ⟨rest, (s.exec c.g l).2⟩ :=
+        List.mem_iff_getElem.mpr ⟨i, by simpa using hi, by simp⟩
+      refine ⟨?_, ?_⟩
+      · intro t' ht'
+        rcases List.mem_or_eq_of_mem_set ht' with h | h
+        · exact hf t' h
+        · subst h
+          exact hwf.2
+      · -- an owed pod stays owed unless the stepping goroutine just ran its addBoundPod
+        have keep : ∀ q, c.owed q → s ≠ .addBound q →
+            (⟨(s.exec c.g l).1, c.ts.set i ⟨rest, (s.exec c.g l).2⟩⟩ : Conf).owed q := by
+          intro q ⟨t, ht, r, hr⟩ hs
+          refine ⟨t, mem_set_of_ne hget ht ?_, r, hr⟩
+          intro e
+          subst e
+          simp only at hr
+          cases hr
+          exact hs rfl
+        intro q hq
+        simp only at hq
+        cases s with
+        | setChildDecide p n => exact absurd hwhole (by simp [Sec.whole])
+        | setChildInsert p => exact absurd hwhole (by simp [Sec.whole])
+        | setChild p n =>
+          simp only [Sec.exec] at hq keep ⊢
+          by_cases hqp : q = p
+          · subst hqp
+            cases n with
+            | true =>
+              obtain ⟨r, hr⟩ := hwf.1 q rfl
+              exact Or.inr (Or.inr (Or.inr ⟨_, hnew, r, hr⟩))
+            | false =>
+              unfold PodSets.setChild
+              simp only
+              by_cases hg : q ∉ c.g.waiting ∧ q ∉ c.g.bound
+              · simp [hg, mem_sIns]
+              · have : q ∈ c.g.waiting ∨ q ∈ c.g.bound := by
+                  by_cases h1 : q ∈ c.g.waiting
+                  · exact Or.inl h1
+                  · by_cases h2 : q ∈ c.g.bound
+                    · exact Or.inr h2
+                    · exact absurd ⟨h1, h2⟩ hg
+                split
+                · rcases this with h | h
+                  · exact Or.inr (Or.inl h)
+                  · exact Or.inr (Or.inr (Or.inl h))
+                · rcases this with h | h
+                  · exact Or.inr (Or.inl h)
+                  · exact Or.inr (Or.inr (Or.inl h))
+          · have hq' : q ∈ c.g.children := by
+              unfold PodSets.setChild at hq
+              simp only at hq
+              split at hq
+              · exact (mem_sIns.mp hq).resolve_left hqp
+              · exact (mem_sIns.mp hq).resolve_left hqp
+            rcases hc q hq' with h | h | h | h
+            · left
+              unfold PodSets.setChild
+              simp only
+              split
+              · exact mem_sIns.mpr (Or.inr h)
+              · exact h
+            · right; left
+              rw [show (c.g.setChild p n).waiting = c.g.waiting by
+                unfold PodSets.setChild; simp only; split <;> rfl]
+              exact h
+            · right; right; left
+              rw [show (c.g.setChild p n).bound = c.g.bound by
+                unfold PodSets.setChild; simp only; split <;> rfl]
+              exact h
+            · exact Or.inr (Or.inr (Or.inr (keep q h (by intro e; cases e))))
+        | addAssumed p =>
+          simp only [Sec.exec] at hq keep ⊢
+          have hq' : q ∈ c.g.children := hq
+          rcases hc q hq' with h | h | h | h
+          · by_cases hqp : q = p
+            · right; left; subst hqp; exact mem_sIns.mpr (Or.inl rfl)
+            · left; exact mem_sDel.mpr ⟨h, hqp⟩
+          · right; left; exact mem_sIns.mpr (Or.inr h)
+          · right; right; left; exact h
+          · exact Or.inr (Or.inr (Or.inr (keep q h (by intro e; cases e))))
+        | delAssumed p =>
+          simp only [Sec.exec] at hq keep ⊢
+          have hq' : q ∈ c.g.children := by
+            unfold PodSets.delAssumed at hq
+            split at hq <;> exact hq
+          rcases hc q hq' with h | h | h | h
+          · left
+            unfold PodSets.delAssumed
+            split
+            · simp only
+              split
+              · exact mem_sIns.mpr (Or.inr h)
+              · exact h
+            · exact h
+          · unfold PodSets.delAssumed
+            split
+            next hp =>
+              simp only
+              by_cases hqp : q = p
+              · left
+                subst hqp
+                rw [if_pos hq']
+                exact mem_sIns.mpr (Or.inl rfl)
+              · right; left; exact mem_sDel.mpr ⟨h, hqp⟩
+            · right; left; exact h
+          · right; right; left
+            unfold PodSets.delAssumed
+            split <;> exact h
+          · exact Or.inr (Or.inr (Or.inr (keep q h (by intro e; cases e))))
+        | addBound p =>
+          simp only [Sec.exec] at hq keep ⊢
+          have hq' : q ∈ c.g.children := hq
+          by_cases hqp : q = p
+          · right; right; left; subst hqp; exact mem_sIns.mpr (Or.inl rfl)
+          · rcases hc q hq' with h | h | h | h
+            · left; exact mem_sDel.mpr ⟨h, hqp⟩
+            · right; left; exact mem_sDel.mpr ⟨h, hqp⟩
+            · right; right; left; exact mem_sIns.mpr (Or.inr h)
+            · exact Or.inr (Or.inr (Or.inr (keep q h (by intro e; cases e; exact hqp rfl))))
+        | deletePod p =>
+          simp only [Sec.exec] at hq keep ⊢
+          have hq2 := mem_sDel.mp hq
+          rcases hc q hq2.1 with h | h | h | h
+          · left; exact mem_sDel.mpr ⟨h, hq2.2⟩
+          · right; left; exact mem_sDel.mpr ⟨h, hq2.2⟩
+          · right; right; left; exact mem_sDel.mpr ⟨h, hq2.2⟩
+          · exact Or.inr (Or.inr (Or.inr (keep q h (by intro e; cases e))))
+
+theorem run_covX (c : Conf) (sched : List Nat) (hw : c.allWhole) (hf : c.allWF) (hc : c.CovX)
+    (hk : c.contract sched = true) (hd : c.g.Disj) : (c.run sched).CovX := by
+  induction sched generalizing c with
+  | nil => exact hc
+  | cons i is ih =>
+    simp only [Conf.contract, Bool.and_eq_true] at hk
+    obtain ⟨h1, h2⟩ := step_whole_disj c i hw hd hk.1
+    obtain ⟨h3, h4⟩ := step_covX c i hw hf hc
+    exact ih _ h1 h3 h4 hk.2 h2
+
+theorem start_one_allWF (g : PodSets) (progs : List (List Call)) : (start 1 g progs).allWF := by
+  intro t ht
+  unfold start at ht
+  simp only [List.mem_map] at ht
+  obtain ⟨cs, _, rfl⟩ := ht
+  exact compile_one_wf cs
+
+theorem covX_quiescent (c : Conf) (hq : c.quiescent) (hc : c.CovX) : c.g.Cov := by
+  intro q hqc
+  rcases hc q hqc with h | h | h | ⟨t, ht, r, hr⟩
+  · exact Or.inl h
+  · exact Or.inr (Or.inl h)
+  · exact Or.inr (Or.inr h)
+  · rw [hq t ht] at hr
+    cases hr
+
 end KoordVerif.C04
